@@ -447,6 +447,38 @@ theorem Stored.walk {s : Store} {cid : Nat} {k : Str} {row : Nat} {v : V} (h : S
     exact List.mem_map.mpr ⟨row, hrow, rfl⟩
   exact walk_delivers_item (wcifOf s) hne B _ hB hin _ hL _ hpk k v (storedPacket_mem _ _ _ _ k v hk h.cell)
 
+/-- an all-continue walk of a CIF without packet-less loops IS the full traversal of its event tree (gH's C14_all_continue) -/
+theorem walk_allCont_full (c : WCif) (hc : noEmptyLoops c = true) : walk allCont c = (fullTraversal c, OK) := by
+  rw [walk_eq_spec allCont c]
+  simp only [walkSpec, fullTraversal, run_allCont _ _ (noFail_cif c hc), finalCode]
+  simp [W.init]
+
+/-- **cif_walk, positionally**: in a `Stored` state, for the node of the item's OWN container `hC` in the tree the walker builds, the loop
+    node walk_loop shows for THIS loop handle is among that container's loops; it has one packet per row of the loop, and the packet at the
+    position of THIS row answers `v` for item `k`; and the all-continue walk is the full depth-first traversal of that tree — so the
+    item callbacks made for that packet of that loop of that container are exactly the packet's entries, (k, v) among them -/
+theorem Stored.walkPos {s : Store} {cid : Nat} {k : Str} {row : Nat} {v : V} (h : Stored s cid k row v) (l : LH)
+    (hl : HandleFor s.db l cid k) (fuel : Nat) (hC : CH) (hid : hC.id = cid) (hne : noEmptyLoops (wcifOf s) = true) :
+    wloopOf s l ∈ (wcontOf s fuel hC).loops ∧
+    (wloopOf s l).packets.length = (s.db.loopRows l.cid l.loopNum).length ∧
+    (∃ (j : Nat) (p : List (Str × V)), (s.db.loopRows l.cid l.loopNum)[j]? = some row ∧ (wloopOf s l).packets[j]? = some p ∧
+        pktGet p k = some v ∧ (k, v) ∈ p ∧ p.map (·.1) = (s.db.loopItems l.cid l.loopNum).map (·.name)) ∧
+    walkStore allCont s = (fullTraversal (wcifOf s), OK) := by
+  obtain ⟨hv, hc, hk⟩ := hl
+  subst hc
+  obtain ⟨w, hw, hwc, hwn, hwr, _⟩ := Codec.mem_of_cell s.db l.cid k row v h.cell
+  have hrow : row ∈ s.db.loopRows l.cid l.loopNum := (mem_loopRows_iff _ _ _ _).mpr ⟨w, hw, hwc, by rw [hwn]; exact hk, hwr⟩
+  have hrows : s.db.loopRows l.cid l.loopNum ≠ [] := List.ne_nil_of_mem hrow
+  obtain ⟨x, hx, k1, _, _⟩ := LH.valid_of_validB hv
+  have hcont : s.db.hasContainer hC.id = true := by rw [hid, ← k1]; exact h.good.db.inv.loopFK x hx
+  have hpk := wloopOf_packets s h.good.db h.ac l hv hrows
+  refine ⟨wloopOf_mem_wcontOf s hC l hcont hv hid.symm fuel, by rw [hpk]; exact List.length_map _, ?_, walk_allCont_full _ hne⟩
+  obtain ⟨j, hj, hjr⟩ := List.mem_iff_getElem.mp hrow
+  refine ⟨j, storedPacket s.db l.cid l.loopNum row, ?_, ?_, ?_, storedPacket_mem _ _ _ _ k v hk h.cell, storedPacket_keys _ _ _ _⟩
+  · rw [List.getElem?_eq_getElem hj, hjr]
+  · rw [hpk, List.getElem?_map, List.getElem?_eq_getElem hj, hjr]; rfl
+  · rw [storedPacket_get _ _ _ _ _ hk, cellK_of_cell _ _ _ _ _ h.cell]
+
 /-- a data block's node is a block of the tree the walker builds -/
 theorem wcontOf_block_mem (s : Store) (hB : CH) (bs : List CH) (hbs : (allBlocks s).2 = .ok bs) (hm : hB ∈ bs) :
     wcontOf s (s.db.frames.length + 1) hB ∈ wcifOf s := by
